@@ -12,7 +12,7 @@
 // ("J:<format>/<aspect>", "V:<format>/<aspect>") so that the python side can
 // assemble the format matrix.
 //
-//   c08 --family gro|xyz|pdb|dump|xml|table|imc|atomcount|dumpread|readers
+//   c08 --family gro|xyz|pdb|dump|xml|table|imc|atomcount|dumpread|readers|reuse
 //       --seed S --shard k
 //       --n N --dir D
 //   c08 --family dlpoly --seed S --case k --dir D     (ONE case per process:
@@ -54,10 +54,19 @@ static std::string g_dir = ".";
 static bool g_minimal = false;  // generate a small case (first witnesses are minimal)
 static std::set<std::string> g_case_keys;  // keys already reported for the current case
 static void new_case() { g_case_keys.clear(); }
+// object-reuse scenarios ("writer-reuse", "append", "reader-reuse"): the keys
+// and counters of the shared judging code get the scenario as a path element
+static std::string g_scenario;
 
 // one judged aspect of one format
-static bool judge(const std::string &fmt, const std::string &aspect, bool ok, const std::string &key,
+static bool judge(const std::string &fmt0, const std::string &aspect, bool ok, const std::string &key0,
                   const std::string &what, const J &w) {
+  std::string fmt = fmt0, key = key0;
+  if (!g_scenario.empty()) {
+    fmt += "[" + g_scenario + "]";
+    size_t sl = key.find('/');
+    if (sl != std::string::npos) key = key.substr(0, sl) + "/" + g_scenario + key.substr(sl);
+  }
   R.counter("J:" + fmt + "/" + aspect);
   if (!ok) {
     R.counter("V:" + fmt + "/" + aspect);
@@ -82,7 +91,12 @@ struct FrameD {
   std::vector<V3> pos, vel, frc;
   long step;
   double time;
+  int kind = -1, hv = -1, hf = -1;  // per-frame box kind / velocity / force presence (-1: as the case says)
 };
+struct CaseD;
+static int fkind(const CaseD &c, const FrameD &F);
+static bool fvel(const CaseD &c, const FrameD &F);
+static bool ffrc(const CaseD &c, const FrameD &F);
 struct CaseD {
   std::string fmt;
   int n = 0;
@@ -95,6 +109,10 @@ struct CaseD {
   std::string tag;  // sub-family marker appended to the reread key
   double dt = 0;
 };
+
+static int fkind(const CaseD &c, const FrameD &F) { return F.kind >= 0 ? F.kind : c.boxkind; }
+static bool fvel(const CaseD &c, const FrameD &F) { return F.hv >= 0 ? F.hv != 0 : c.vel; }
+static bool ffrc(const CaseD &c, const FrameD &F) { return F.hf >= 0 ? F.hf != 0 : c.frc; }
 
 struct Limits {            // nm, VOTCA units: what fits the format's field
   double pos_hi, pos_lo;   // width (leaving a separating blank in the
@@ -206,10 +224,18 @@ static CaseD gen_case(vfh::Rng &r, const std::string &fmt, int maxbeads, int max
   double dt = awkward ? r.logu(1e-3, 1.0) : nice[r.range(0, 7)];
   if (awkward) c.tag = "unrounded-dt";
   c.dt = dt;
+  // frames of one sequence may differ: box type (gro: the only format here
+  // whose file can express orthorhombic -> triclinic -> orthorhombic) and
+  // presence of velocities / forces (gro, dump: per-frame columns)
+  bool mixbox = fmt == "gro" && minimal < 0 && nfr > 1 && r.coin(0.25);
+  bool mixvf = (fmt == "gro" || fmt == "dump") && minimal < 0 && nfr > 1 && r.coin(0.2);
   for (int f = 0; f < nfr; ++f) {
     FrameD F;
-    F.box = rbox(r, c.boxkind, L.box_hi);
-    double Lb = c.boxkind ? F.box(0, 0) : 5.0;
+    if (mixbox) { F.kind = (f % 2 == 0) ? 1 : 2; if (r.coin(0.15)) F.kind = 0; c.boxkind = 2; }
+    if (mixvf) { F.hv = r.coin() ? 1 : 0; F.hf = r.coin() ? 1 : 0; }
+    int fk = F.kind >= 0 ? F.kind : c.boxkind;
+    F.box = rbox(r, fk, L.box_hi);
+    double Lb = fk ? F.box(0, 0) : 5.0;
     F.step = step;
     F.time = (double)step * dt;
     step += r.range(1, 5000);
@@ -252,9 +278,9 @@ static J case_json(const CaseD &c, size_t maxframes = 6) {
   std::string fr = "[";
   for (size_t f = 0; f < c.fr.size() && f < maxframes; ++f) {
     J a;
-    a.i("step", c.fr[f].step).d("time", c.fr[f].time).vec("box_rowmajor", flat(c.fr[f].box)).vec("pos", flat(c.fr[f].pos));
-    if (c.vel) a.vec("vel", flat(c.fr[f].vel));
-    if (c.frc) a.vec("force", flat(c.fr[f].frc));
+    a.i("step", c.fr[f].step).d("time", c.fr[f].time).i("boxkind", fkind(c, c.fr[f])).vec("box_rowmajor", flat(c.fr[f].box)).vec("pos", flat(c.fr[f].pos));
+    if (fvel(c, c.fr[f])) a.vec("vel", flat(c.fr[f].vel));
+    if (ffrc(c, c.fr[f])) a.vec("force", flat(c.fr[f].frc));
     fr += (f ? "," : "") + a.str();
   }
   j.raw("frames", fr + "]");
@@ -279,17 +305,17 @@ static void build_top(Topology &top, const CaseD &c, int nbeads = -1) {
 }
 static void load_frame(Topology &top, const CaseD &c, const FrameD &F, int nbeads = -1) {
   if (nbeads < 0) nbeads = c.n;
-  top.setBox(F.box, c.boxkind == 0 ? BoundaryCondition::typeOpen
-                     : c.boxkind == 1 ? BoundaryCondition::typeOrthorhombic : BoundaryCondition::typeTriclinic);
+  int fk = fkind(c, F);
+  top.setBox(F.box, fk == 0 ? BoundaryCondition::typeOpen : fk == 1 ? BoundaryCondition::typeOrthorhombic : BoundaryCondition::typeTriclinic);
   top.setStep(F.step);
   top.setTime(F.time);
-  top.SetHasVel(c.vel);
-  top.SetHasForce(c.frc);
+  top.SetHasVel(fvel(c, F));
+  top.SetHasForce(ffrc(c, F));
   for (int i = 0; i < nbeads; ++i) {
     Bead *b = top.getBead(i);
     b->setPos(F.pos[i % c.n]);
-    if (c.vel) b->setVel(F.vel[i % c.n]);
-    if (c.frc) b->setF(F.frc[i % c.n]);
+    if (fvel(c, F)) b->setVel(F.vel[i % c.n]);
+    if (ffrc(c, F)) b->setF(F.frc[i % c.n]);
   }
 }
 // write the frames [f0,f1) of a case through the library writer
@@ -497,14 +523,15 @@ static void judge_frames(const CaseD &c, const std::string &fmt, const std::vect
   bool st_box = fmt != "xyz";
   bool st_step = fmt == "dump" || (fmt == "dlpoly" && !config);
   // DL_POLY can only store forces together with velocities (keytrj 0/1/2)
-  bool exp_vel = c.vel && st_vel;
-  bool exp_frc = c.frc && st_frc && (fmt != "dlpoly" || c.vel);
   size_t nexp = config ? 1 : c.fr.size();
   judge(fmt, "frame-count", got.size() == nexp, fmt + "/frame-count", "number of frames read back differs from the number written",
         W().i("frames_written", (long long)nexp).i("frames_read", (long long)got.size()));
   for (size_t f = 0; f < got.size() && f < nexp; ++f) {
     const FrameD &E = c.fr[f];
     const Snap &G = got[f];
+    const bool exp_vel = fvel(c, E) && st_vel;
+    const bool exp_frc = ffrc(c, E) && st_frc && (fmt != "dlpoly" || fvel(c, E));
+    const int ekind = fkind(c, E);
     if (!judge(fmt, "bead-count", G.nbeads == c.n, fmt + "/bead-count", "bead count after reading differs", W().i("frame", (long long)f).i("got", G.nbeads)))
       continue;
     Cmp cp = cmp_vecs(G.pos, E.pos, T.pos_abs, T.sig, T.scale);
@@ -534,6 +561,10 @@ static void judge_frames(const CaseD &c, const std::string &fmt, const std::vect
           judge(fmt, "velocities", !cv.bad(), fmt + (cv.units ? "/velocities-units" : "/velocities-values"),
                 cv.units ? "velocities come back scaled by a constant factor (unit mix-up)" : "velocities differ by more than half a unit of the last printed digit", w);
         }
+      } else if (E.hv == 0) {  // a frame without velocities inside a sequence that has some
+        bool any = false;
+        for (char h : G.hv) any = any || h;
+        R.counter(fmt + (any ? "/frame without velocity columns: beads keep the previous frame's velocities (observed, not judged)" : "/frame without velocity columns: beads have no velocity (observed)"));
       }
     }
     if (st_frc && via == "reader") {
@@ -560,11 +591,11 @@ static void judge_frames(const CaseD &c, const std::string &fmt, const std::vect
       J w = W(); w.i("frame", (long long)f).vec("box_read_rowmajor", flat(G.box)).vec("box_written_rowmajor", flat(E.box));
       bool lost = G.box.isZero(0) && !E.box.isZero(0);
       if (lost) {  // nothing came back at all
-        judge(fmt, "box-diagonal", false, fmt + (c.boxkind == 2 ? "/box-missing-triclinic" : "/box-missing"), "the box is not stored / not read: it comes back as zero", w);
+        judge(fmt, "box-diagonal", false, fmt + (ekind == 2 ? "/box-missing-triclinic" : "/box-missing"), "the box is not stored / not read: it comes back as zero", w);
         continue;
       }
       judge(fmt, "box-diagonal", worstd <= 1, fmt + "/box-diagonal", "box diagonal differs after the round trip", w);
-      if (c.boxkind == 2) {
+      if (ekind == 2) {
         std::string key = fmt + "/box-offdiagonal", what = "off-diagonal box elements differ after the round trip";
         if (worsto > 1) {
           bool transposed = true, dropped = true;
@@ -1699,6 +1730,365 @@ static void dlpread_case(vfh::Rng &r, const std::string &base) {
   if (ok) judge_exp("dlpoly-reader", "dlpoly-reader/positions", file, desc, exp, got, {0.1});
 }
 
+
+// ===================================================== objects used twice
+// One writer object for several files, append mode, one reader object for
+// several files, NextFrame after the end, FirstFrame twice. The shared judging
+// code runs under g_scenario, so keys read <fmt>/<scenario>/<aspect>.
+static void set_n(CaseD &c, int n) {
+  int o = c.n;
+  auto cyc = [&](auto &v) { auto w = v; w.resize((size_t)n); for (int i = 0; i < n; ++i) w[(size_t)i] = v[(size_t)(i % o)]; v = w; };
+  cyc(c.name); cyc(c.type); cyc(c.resnr); cyc(c.mass); cyc(c.q);
+  for (auto &F : c.fr) { cyc(F.pos); cyc(F.vel); cyc(F.frc); }
+  c.n = n;
+}
+// a case that triggers none of the recorded format limits (dump/pdb:
+// rectangular boxes only; xyz: narrow coordinates; dlpoly: rounded time step)
+static CaseD reuse_gen(vfh::Rng &r, const std::string &fmt, int nfr_min, int n = -1) {
+  CaseD c;
+  for (int tries = 0; tries < 50; ++tries) {
+    c = gen_case(r, fmt == "dlpoly" ? "dump" : fmt, 40, 5, g_minimal ? (int)r.range(0, 3) : -1);
+    if (c.tag.empty() && (int)c.fr.size() >= nfr_min) break;
+    if (c.tag.empty() && tries > 20) { while ((int)c.fr.size() < nfr_min) { c.fr.push_back(c.fr[0]); for (auto &p : c.fr.back().pos) p += V3(0.013, 0.021, 0.034) * (double)c.fr.size(); c.fr.back().step = c.fr[c.fr.size() - 2].step + 7; } break; }
+  }
+  while ((int)c.fr.size() < nfr_min) { c.fr.push_back(c.fr[0]); for (auto &p : c.fr.back().pos) p += V3(0.013, 0.021, 0.034) * (double)c.fr.size(); c.fr.back().step = c.fr[c.fr.size() - 2].step + 7; c.fr.back().time = c.dt * (double)c.fr.back().step; }
+  c.tag.clear();
+  if (fmt == "dump" || fmt == "pdb" || fmt == "dlpoly") {
+    int kind = fmt == "dlpoly" ? (c.boxkind == 0 ? 1 : c.boxkind) : 1;
+    c.boxkind = kind;
+    for (auto &F : c.fr) { F.kind = -1; F.box = rbox(r, kind, 400); if (fmt == "dlpoly") { F.hv = F.hf = -1; } }
+  }
+  if (fmt == "dlpoly") { c.fmt = "dlph"; if (c.frc) c.vel = true; for (auto &F : c.fr) if (F.step == 0) F.step = 1; }
+  if (n > 0) set_n(c, n);
+  return c;
+}
+// DL_POLY HISTORY in the official layout from a case (the library writer can
+// only be used once per process)
+static void write_dlph_ref(const std::string &file, const CaseD &c) {
+  std::ofstream o(file);
+  char b[400];
+  int lev = c.vel ? (c.frc ? 2 : 1) : 0, imcon = c.boxkind == 2 ? 3 : 2;
+  o << "harness written HISTORY\n";
+  snprintf(b, sizeof b, "%10d%10d%10d\n", lev, imcon, c.n); o << b;
+  for (auto &F : c.fr) {
+    snprintf(b, sizeof b, "timestep%10ld%10d%10d%10d%12.6f%12.6f\n", F.step, c.n, lev, imcon, 0.002, 0.002 * (double)F.step); o << b;
+    for (int v = 0; v < 3; ++v) { snprintf(b, sizeof b, "%20.12g%20.12g%20.12g\n", F.box(0, v) * 10, F.box(1, v) * 10, F.box(2, v) * 10); o << b; }
+    for (int i = 0; i < c.n; ++i) {
+      snprintf(b, sizeof b, "%-8s%10d%12.6f%12.6f%12.6f\n", c.type[i].substr(0, 8).c_str(), i + 1, c.mass[i], c.q[i], 0.0); o << b;
+      snprintf(b, sizeof b, "%20.12g%20.12g%20.12g\n", F.pos[i].x() * 10, F.pos[i].y() * 10, F.pos[i].z() * 10); o << b;
+      if (lev >= 1) { snprintf(b, sizeof b, "%20.12g%20.12g%20.12g\n", F.vel[i].x() * 10, F.vel[i].y() * 10, F.vel[i].z() * 10); o << b; }
+      if (lev >= 2) { snprintf(b, sizeof b, "%20.12g%20.12g%20.12g\n", F.frc[i].x() * 10, F.frc[i].y() * 10, F.frc[i].z() * 10); o << b; }
+    }
+  }
+}
+static void write_file_fresh(const std::string &file, const CaseD &c, const std::string &fmt) {
+  if (fmt == "dlpoly") write_dlph_ref(file, c); else write_case(file, c);
+}
+static std::string ext_of(const std::string &fmt) { return fmt == "dlpoly" ? "dlph" : fmt; }
+
+// read a whole file with a FRESH reader and judge it against the case
+static void read_and_judge(const CaseD &c, const std::string &file, const std::string &fmt) {
+  std::vector<Snap> got;
+  std::string msg;
+  bool ok = true;
+  try { Topology dst; build_top(dst, c); got = read_traj(file, dst); } catch (std::exception &e) { ok = false; msg = e.what(); }
+  judge(fmt, "reread", ok, fmt + "/reread-rejected", "the matching reader throws on the file", case_json(c, 2).s("exception", msg).s("file_head", slurp(file, 1500)));
+  if (ok) judge_frames(c, fmt, got, file, false, "reader");
+}
+
+static void writer_reuse_case(vfh::Rng &r, const std::string &fmt, const std::string &base) {
+  new_case();
+  CaseD A = reuse_gen(r, fmt, 1), B = reuse_gen(r, fmt, 1);
+  if (r.coin()) set_n(B, A.n);  // same or different bead count
+  std::string fa = base + "_wa." + fmt, fb = base + "_wb." + fmt, fc = base + "_wc." + fmt;
+  R.eval(fmt + "/writer-reuse");
+  R.nontrivial(vfh::hmix(case_hash(A), case_hash(B)));
+  g_scenario = "writer-reuse";
+  try {
+    Quiet q;
+    std::unique_ptr<TrajectoryWriter> w = TrjWriterFactory().Create(fa);
+    Topology ta, tb;
+    build_top(ta, A); build_top(tb, B);
+    w->Open(fa);
+    for (auto &F : A.fr) { load_frame(ta, A, F); w->Write(&ta); }
+    w->Close();
+    w->Open(fb);
+    for (auto &F : B.fr) { load_frame(tb, B, F); w->Write(&tb); }
+    w->Close();
+    w->Open(fc);  // and the first one again, into a third file
+    for (auto &F : A.fr) { load_frame(ta, A, F); w->Write(&ta); }
+    w->Close();
+  } catch (std::exception &e) {
+    judge(fmt, "write", false, fmt + "/write-threw", "a writer object used for a second file throws", case_json(A, 1).s("exception", e.what()));
+    g_scenario.clear();
+    return;
+  }
+  read_and_judge(A, fa, fmt);
+  read_and_judge(B, fb, fmt);
+  read_and_judge(A, fc, fmt);
+  // the third file must be byte-identical to the first (same frames, same object)
+  judge(fmt, "identical-files", slurp(fa, 1 << 22) == slurp(fc, 1 << 22), fmt + "/files-differ",
+        "the same frames written by one writer object into its first and its third file give different files (state leaks between files)",
+        case_json(A, 1).s("first_file_head", slurp(fa, 800)).s("third_file_head", slurp(fc, 800)));
+  g_scenario.clear();
+}
+
+static void append_case(vfh::Rng &r, const std::string &fmt, const std::string &base) {
+  new_case();
+  CaseD A = reuse_gen(r, fmt, 4);
+  size_t h = (size_t)r.range(1, (long)A.fr.size() - 1);
+  std::string f = base + "_ap." + fmt;
+  R.eval(fmt + "/append");
+  R.nontrivial(vfh::hmix(case_hash(A), 977 + h));
+  g_scenario = "append";
+  try {
+    Quiet q;
+    std::unique_ptr<TrajectoryWriter> w = TrjWriterFactory().Create(f);
+    Topology ta;
+    build_top(ta, A);
+    w->Open(f, false);
+    for (size_t k = 0; k < h; ++k) { load_frame(ta, A, A.fr[k]); w->Write(&ta); }
+    w->Close();
+    if (r.coin()) w = TrjWriterFactory().Create(f);  // same or a new object
+    w->Open(f, true);
+    for (size_t k = h; k < A.fr.size(); ++k) { load_frame(ta, A, A.fr[k]); w->Write(&ta); }
+    w->Close();
+  } catch (std::exception &e) {
+    judge(fmt, "write", false, fmt + "/write-threw", "writing in append mode throws", case_json(A, 1).s("exception", e.what()));
+    g_scenario.clear();
+    return;
+  }
+  read_and_judge(A, f, fmt);
+  g_scenario.clear();
+}
+
+static void reader_reuse_case(vfh::Rng &r, const std::string &fmt, const std::string &base) {
+  new_case();
+  CaseD A = reuse_gen(r, fmt, 1), B = reuse_gen(r, fmt, 1, A.n), C = reuse_gen(r, fmt, 1);
+  if (C.n == A.n) set_n(C, A.n + 1 + (int)r.range(0, 2));
+  std::string e = ext_of(fmt), fa = base + "_ra." + e, fb = base + "_rb." + e, fc = base + "_rc." + e;
+  R.eval(fmt + "/reader-reuse");
+  R.nontrivial(vfh::hmix(vfh::hmix(case_hash(A), case_hash(B)), case_hash(C)));
+  g_scenario = "reader-reuse";
+  try { write_file_fresh(fa, A, fmt); write_file_fresh(fb, B, fmt); write_file_fresh(fc, C, fmt); } catch (std::exception &ex) {
+    R.inconclusive(std::string("reader-reuse: cannot write input: ") + ex.what());
+    g_scenario.clear();
+    return;
+  }
+  std::unique_ptr<TrajectoryReader> rd;
+  { Quiet q; rd = TrjReaderFactory().Create(fa); }
+  Topology dst, dstC;
+  build_top(dst, A); build_top(dstC, C);
+  auto readall = [&](const std::string &file, Topology &t, std::vector<Snap> &out, std::string &msg) {
+    Quiet q;
+    try {
+      rd->Open(file);
+      rd->FirstFrame(t);
+      out.push_back(snap(t));
+      while (out.size() < 50 && rd->NextFrame(t)) out.push_back(snap(t));
+      return true;
+    } catch (std::exception &ex) { msg = ex.what(); return false; }
+  };
+  auto W = [&]() { J w; w.raw("first_file_case", case_json(A, 1).str()).i("beads_first", A.n).i("frames_first", (long long)A.fr.size()).i("frames_second", (long long)B.fr.size()).i("beads_third", C.n); return w; };
+  struct Step { const CaseD *c; const std::string *f; Topology *t; const char *name; };
+  Step steps[3] = {{&A, &fa, &dst, "first file"}, {&B, &fb, &dst, "second file (same bead count)"}, {&C, &fc, &dstC, "third file (other bead count, own topology)"}};
+  for (auto &st : steps) {
+    std::vector<Snap> got;
+    std::string msg;
+    bool ok = readall(*st.f, *st.t, got, msg);
+    judge(fmt, "reread", ok, fmt + "/reread-rejected", std::string("one reader object used for several files throws on the ") + st.name, W().s("exception", msg).s("file_head", slurp(*st.f, 1200)));
+    if (ok) {
+      judge_frames(*st.c, fmt, got, *st.f, false, "reader");
+      // NextFrame after the end: false, again and again
+      bool fine = true;
+      std::string m2;
+      try { Quiet q; for (int k = 0; k < 3; ++k) if (rd->NextFrame(*st.t)) fine = false; } catch (std::exception &ex) { fine = false; m2 = ex.what(); }
+      judge(fmt, "nextframe-after-end", fine, fmt + "/nextframe-after-end", "NextFrame called after the last frame does not keep returning false", W().s("file", st.name).s("exception", m2));
+    }
+    { Quiet q; rd->Close(); }
+  }
+  // the third file with the topology of the first: atom count mismatch must be reported
+  {
+    bool threw = false;
+    std::string msg = "no exception";
+    try { Quiet q; rd->Open(fc); rd->FirstFrame(dst); while (rd->NextFrame(dst)) {} } catch (std::exception &ex) { threw = true; msg = ex.what(); }
+    judge(fmt, "atomcount", threw, fmt + "/atomcount-no-error", "a reused reader accepts a file whose atom count differs from the topology", W().s("reader_said", msg));
+    { Quiet q; try { rd->Close(); } catch (...) {} }
+  }
+  // FirstFrame twice: the stream readers do not rewind. Whatever the reader does, the
+  // topology must afterwards hold a frame of the file, or the call must throw
+  {
+    Topology d2;
+    build_top(d2, A);
+    std::string outcome;
+    try {
+      Quiet q;
+      rd->Open(fa);
+      rd->FirstFrame(d2);
+      bool more = rd->FirstFrame(d2);
+      Snap s2 = snap(d2);
+      Tol T = tol_of(fmt, false);
+      int which = -1;
+      for (size_t f = 0; f < A.fr.size(); ++f) if (!cmp_vecs(s2.pos, A.fr[f].pos, T.pos_abs, T.sig, T.scale).bad()) which = (int)f;
+      outcome = which == 0 ? "frame 1 again" : which == 1 ? "frame 2" : which > 1 ? "a later frame" : (A.fr.size() == 1 && !more ? "end of file" : "NO FRAME OF THE FILE");
+      if (which < 0 && A.fr.size() == 1) { which = cmp_vecs(s2.pos, A.fr[0].pos, T.pos_abs, T.sig, T.scale).bad() ? -1 : 0; }
+      judge(fmt, "firstframe-twice", outcome != "NO FRAME OF THE FILE", fmt + "/firstframe-twice", "after FirstFrame was called twice the topology holds data that is no frame of the file", W().s("outcome", outcome));
+    } catch (std::exception &ex) { outcome = "exception"; judge(fmt, "firstframe-twice", true, "", "", J()); }
+    R.counter(fmt + "/FirstFrame twice -> " + outcome + " (observed)");
+    { Quiet q; try { rd->Close(); } catch (...) {} }
+  }
+  g_scenario.clear();
+}
+
+// ------------------------------------------------------- Table used twice
+static void table_reuse_case(vfh::Rng &r, const std::string &base) {
+  using votca::tools::Table;
+  new_case();
+  auto gen = [&](int n, std::vector<double> &x, std::vector<double> &y, std::string &fl) {
+    x.resize(n); y.resize(n); fl.resize(n);
+    double x0 = r.uni(-5, 5);
+    for (int i = 0; i < n; ++i) { x[i] = x0 + 0.01 * i + r.uni(0, 0.005); y[i] = rval(r); fl[i] = "iou"[r.range(0, 2)]; }
+  };
+  auto fill = [&](Table &t, const std::vector<double> &x, const std::vector<double> &y, const std::string &fl) {
+    t.resize((Index)x.size());
+    for (size_t i = 0; i < x.size(); ++i) t.set((Index)i, x[i], y[i], fl[i]);
+  };
+  auto same = [&](Table &t, const std::vector<double> &x, const std::vector<double> &y, const std::string &fl, std::string &why) {
+    if ((size_t)t.size() != x.size()) { why = "rows " + std::to_string(t.size()) + " != " + std::to_string(x.size()); return false; }
+    for (size_t i = 0; i < x.size(); ++i) {
+      if (!(std::fabs(t.x((Index)i) - x[i]) <= tol_sig(x[i], 10)) || !(std::fabs(t.y((Index)i) - y[i]) <= tol_sig(y[i], 10))) { why = "value in row " + std::to_string(i); return false; }
+      if (t.flags((Index)i) != fl[i]) { why = "flag in row " + std::to_string(i); return false; }
+    }
+    return true;
+  };
+  int n1 = g_minimal ? 2 : (int)r.range(1, 60), n2 = g_minimal ? 3 : (int)r.range(1, 60);
+  if (n2 == n1) ++n2;
+  std::vector<double> x1, y1, x2, y2;
+  std::string f1, f2;
+  gen(n1, x1, y1, f1); gen(n2, x2, y2, f2);
+  std::string p1 = base + "_t1.tab", p2 = base + "_t2.tab", p3 = base + "_t3.tab";
+  R.eval("table/reuse");
+  R.nontrivial(vfh::hdouble(vfh::hdouble(vfh::hmix(61, n1 * 1000 + n2), y1[0]), y2[0]));
+  auto W = [&]() { J w; w.i("rows_first", n1).i("rows_second", n2).vec("x1", x1).vec("y1", y1).s("flags1", f1).vec("x2", x2).vec("y2", y2).s("flags2", f2); return w; };
+  try {
+    Quiet q;
+    Table a, b;
+    fill(a, x1, y1, f1); a.Save(p1);
+    fill(b, x2, y2, f2); b.Save(p2);
+    Table u;
+    std::string why;
+    u.Load(p1);
+    bool ok1 = same(u, x1, y1, f1, why);
+    judge("table", "reuse/first-load", ok1, "table/reuse/first-load", "Table::Load into a fresh table differs from the saved table", W().s("difference", why));
+    u.Load(p2);  // shorter or longer, other flags
+    bool ok2 = same(u, x2, y2, f2, why);
+    judge("table", "reuse/second-load", ok2, "table/reuse/second-load", "a Table object loaded a second time keeps data of the first file / has the wrong size", W().s("difference", why));
+    // modify, grow, save, load
+    std::vector<double> x3 = x2, y3 = y2;
+    std::string f3 = f2;
+    int extra = (int)r.range(1, 5);
+    for (int k = 0; k < extra; ++k) { x3.push_back(x3.back() + 0.01); y3.push_back(rval(r)); f3.push_back("iou"[r.range(0, 2)]); }
+    y3[0] = rval(r); f3[0] = f3[0] == 'i' ? 'o' : 'i';
+    u.resize((Index)x3.size());
+    for (size_t i = 0; i < x3.size(); ++i) u.set((Index)i, x3[i], y3[i], f3[i]);
+    u.Save(p3);
+    Table v;
+    v.Load(p3);
+    judge("table", "reuse/save-after-modify", same(v, x3, y3, f3, why), "table/reuse/save-after-modify", "a loaded, modified and resized Table is not saved as it is in memory", W().s("difference", why));
+    // resize, then load a file of another length
+    u.resize((Index)r.range(0, 80));
+    u.Load(p1);
+    judge("table", "reuse/resize-then-load", same(u, x1, y1, f1, why), "table/reuse/resize-then-load", "Table::Load after resize() does not yield exactly the file", W().s("difference", why));
+  } catch (std::exception &e) {
+    judge("table", "reuse/threw", false, "table/reuse/threw", "Table Save/Load sequence on one object throws", W().s("exception", e.what()));
+  }
+}
+// table files as other programs / editors write them
+static void table_text_case(vfh::Rng &r, const std::string &file) {
+  using votca::tools::Table;
+  new_case();
+  int n = g_minimal ? 2 : (int)r.range(1, 40), ncol = (int)r.range(2, 4);
+  bool crlf = r.coin(0.3), tabs = r.coin(0.3), trail = r.coin(0.3), comments = r.coin(0.5);
+  std::vector<double> x(n), y(n);
+  std::string fl(n, 'i');
+  std::ostringstream o;
+  std::string eol = crlf ? "\r\n" : "\n", sep = tabs ? "\t" : " ";
+  if (comments) o << "# produced elsewhere" << eol << "@ xmgrace directive" << eol;
+  for (int i = 0; i < n; ++i) {
+    std::string xs = fmtd("%.10g", -3 + 0.05 * i + r.uni(0, 0.01)), ys = r.coin(0.2) ? fmtd("%.6e", rval(r)) : fmtd("%.10g", rval(r));
+    x[i] = tokd(xs); y[i] = tokd(ys);
+    o << (r.coin(0.2) ? sep : "") << xs << sep << (r.coin(0.3) ? sep : "") << ys;
+    if (ncol == 4) o << sep << fmtd("%.6g", std::fabs(rval(r)));
+    if (ncol >= 3) { fl[i] = "iou"[r.range(0, 2)]; o << sep << fl[i]; }
+    if (comments && r.coin(0.15)) o << sep << "# trailing comment 1 2 u";
+    if (trail) o << "  " << (tabs ? "\t" : "");
+    o << eol;
+    if (comments && r.coin(0.2)) o << "# comment between data rows 3 4 o" << eol;
+    if (comments && r.coin(0.1)) o << eol;
+  }
+  { std::ofstream of(file, std::ios::binary); of << o.str(); }
+  R.eval("table-reader/text-variants");
+  R.nontrivial(vfh::hstr(67, o.str().substr(0, 300)));
+  auto W = [&]() { J w; w.i("rows", n).i("columns", ncol).b("crlf", crlf).b("tabs", tabs).b("trailing_blanks", trail).b("comments", comments).s("file", o.str().substr(0, 1500)); return w; };
+  // files with Windows line ends are a sub-family with one key of its own
+  const std::string fam = crlf ? "table-reader(crlf)" : "table-reader";
+  auto key = [&](const char *k) { return crlf ? std::string("table-reader/windows-line-ends") : std::string("table-reader/") + k; };
+  const std::string wl = crlf ? " (file with \\r\\n line ends)" : "";
+  if (crlf) {
+    // observation only: the statement is about tables written by the library (which never writes \r\n);
+    // the unchanged reader keeps the '\r' (table.cc reaches std::getline, not tools::getline) and rejects or misreads
+    // such files. Counted, not judged.
+    Table tc;
+    try { Quiet q; tc.Load(file); } catch (std::exception &) { R.counter("observed_only_table_crlf_rejected"); return; }
+    bool same = tc.size() == n;
+    for (int i = 0; same && i < n; ++i) same = nearx(tc.x(i), x[i]) && nearx(tc.y(i), y[i]) && tc.flags(i) == fl[i];
+    R.counter(same ? "observed_only_table_crlf_read_correctly" : "observed_only_table_crlf_misread");
+    return;
+  }
+  Table t;
+  try { Quiet q; t.Load(file); } catch (std::exception &e) { judge(fam, "accepted", false, key("rejected"), "Table::Load throws on a valid table file" + wl, W().s("exception", e.what())); return; }
+  judge(fam, "accepted", true, "", "", J());
+  if (!judge(fam, "size", t.size() == n, key("size"), "number of rows differs from the data rows of the file" + wl, W().i("got", (long long)t.size()))) return;
+  int bv = -1, bf = -1;
+  for (int i = 0; i < n; ++i) { if (bv < 0 && (!nearx(t.x(i), x[i]) || !nearx(t.y(i), y[i]))) bv = i; if (bf < 0 && t.flags(i) != fl[i]) bf = i; }
+  judge(fam, "values", bv < 0, key("values"), "x/y differ from the numbers in the file" + wl, W().i("row", bv));
+  judge(fam, "flags", bf < 0, key("flags"), "flags differ from the last column of the file (2-column files: i)" + wl, W().i("row", bf).s("expected", fl));
+}
+// imcio readers called twice (same file, then another file)
+static void imc_twice_case(vfh::Rng &r, const std::string &base) {
+  new_case();
+  R.eval("imc/read-twice");
+  int r1 = (int)r.range(2, 8), c1 = (int)r.range(2, 8), r2 = (int)r.range(2, 8), c2 = (int)r.range(2, 8);
+  Eigen::MatrixXd A(r1, c1), B(r2, c2);
+  for (int i = 0; i < r1; ++i) for (int j = 0; j < c1; ++j) A(i, j) = rval(r);
+  for (int i = 0; i < r2; ++i) for (int j = 0; j < c2; ++j) B(i, j) = rval(r);
+  R.nontrivial(vfh::hdouble(vfh::hdouble(vfh::hmix(71, r1 * 100 + c2), A(0, 0)), B(0, 0)));
+  std::string fa = base + "_2a.gmc", fb = base + "_2b.gmc", ia = base + "_2a.idx", ib = base + "_2b.idx";
+  auto eq = [&](const Eigen::MatrixXd &G, const Eigen::MatrixXd &E) {
+    if (G.rows() != E.rows() || G.cols() != E.cols()) return false;
+    for (Index i = 0; i < E.rows(); ++i) for (Index j = 0; j < E.cols(); ++j) if (!(std::fabs(G(i, j) - E(i, j)) <= tol_sig(E(i, j), 8))) return false;
+    return true;
+  };
+  using votca::tools::RangeParser;
+  auto mk = [&](int n) { std::vector<std::pair<std::string, RangeParser>> v; long cur = 1; for (int i = 0; i < n; ++i) { RangeParser rp; long len = r.range(0, 30); rp.Add(cur, cur + len, 1); cur += len + 1; v.push_back({rname(r, 5), rp}); } return v; };
+  auto expand = [&](std::vector<std::pair<std::string, RangeParser>> &v) { std::string s; for (auto &p : v) { s += p.first + ":"; long g = 0; for (RangeParser::iterator it = p.second.begin(); it != p.second.end() && g < 100000; ++it, ++g) s += std::to_string(*it) + ","; s += ";"; } return s; };
+  try {
+    Quiet q;
+    imcio_write_matrix(fa, A); imcio_write_matrix(fb, B);
+    Eigen::MatrixXd a1 = imcio_read_matrix(fa), a2 = imcio_read_matrix(fa), b1 = imcio_read_matrix(fb), a3 = imcio_read_matrix(fa);
+    judge("imc", "read-twice/matrix", eq(a1, A) && eq(a2, A) && eq(b1, B) && eq(a3, A), "imc/read-twice/matrix", "imcio_read_matrix called repeatedly (same file, another file, first file again) does not return each file's matrix",
+          J().i("rows1", r1).i("cols1", c1).i("rows2", r2).i("cols2", c2).s("file1", slurp(fa, 800)).s("file2", slurp(fb, 800)));
+    auto I1 = mk((int)r.range(1, 5)), I2 = mk((int)r.range(1, 5));
+    imcio_write_index(ia, I1); imcio_write_index(ib, I2);
+    auto g1 = imcio_read_index(ia), g2 = imcio_read_index(ia), h1 = imcio_read_index(ib), g3 = imcio_read_index(ia);
+    std::string e1 = expand(I1), e2 = expand(I2);
+    judge("imc", "read-twice/index", expand(g1) == e1 && expand(g2) == e1 && expand(h1) == e2 && expand(g3) == e1, "imc/read-twice/index", "imcio_read_index called repeatedly does not return each file's ranges",
+          J().s("file1", slurp(ia, 600)).s("file2", slurp(ib, 600)));
+  } catch (std::exception &e) {
+    judge("imc", "read-twice/threw", false, "imc/read-twice/threw", "imcio write/read sequence throws", J().s("exception", e.what()));
+  }
+}
+
 // ------------------------------------------------------------------ main
 int main(int argc, char **argv) {
   vfh::Args A(argc, argv);
@@ -1733,6 +2123,7 @@ int main(int argc, char **argv) {
       bool config = variant == 5;
       CaseD c = gen_case(r2, "dump", maxbeads, 6, k < 48 ? (int)(k / 8) * 4 + (int)(k % 4) : -1);
       c.fmt = config ? "dlpc" : "dlph";
+      for (auto &F : c.fr) F.hv = F.hf = -1;  // the HISTORY header fixes keytrj for all frames
       if (c.frc && !c.vel && r2.coin()) c.vel = true;
       roundtrip(c, base + (config ? ".dlpc" : ".dlph"), "dlpoly", config);
       if (!c.fr.empty() && c.fr[0].step == 0 && !config) R.counter("dlpoly/first_step_0_cases(time=nan not judged)");
@@ -1743,6 +2134,19 @@ int main(int argc, char **argv) {
       g_minimal = shard == 0 && k < 16;
       std::string f = fm[k % 4];
       atomcount_case(rng, f, f, base + "_ac." + f);
+    }
+  } else if (fam == "reuse") {
+    // objects used more than once (DL_POLY: reader only, on harness-written
+    // HISTORY files; its writer is one-per-process by the documented assumption)
+    const char *wf[4] = {"gro", "xyz", "pdb", "dump"};
+    const char *rf[5] = {"gro", "xyz", "pdb", "dump", "dlpoly"};
+    for (long k = 0; k < n; ++k) {
+      g_minimal = shard == 0 && k < 15;
+      switch (k % 3) {
+        case 0: writer_reuse_case(rng, wf[(k / 3) % 4], base); break;
+        case 1: append_case(rng, wf[(k / 3) % 4], base); break;
+        default: reader_reuse_case(rng, rf[(k / 3) % 5], base); break;
+      }
     }
   } else if (fam == "dumpread") {
     for (long k = 0; k < n; ++k) { g_minimal = shard == 0 && k < 8; dumpread_case(rng, base + "_dr"); }
@@ -1759,13 +2163,19 @@ int main(int argc, char **argv) {
   } else if (fam == "xml") {
     for (long k = 0; k < n; ++k) xml_case(rng, base + ".xml");
   } else if (fam == "table") {
-    for (long k = 0; k < n; ++k) { g_minimal = shard == 0 && k < 10; table_case(rng, base + ".tab"); }
+    for (long k = 0; k < n; ++k) {
+      g_minimal = shard == 0 && k < 10;
+      table_case(rng, base + ".tab");
+      if (k % 4 == 1) table_reuse_case(rng, base);
+      if (k % 4 == 2) table_text_case(rng, base + "_txt.tab");
+    }
   } else if (fam == "imc") {
     for (long k = 0; k < n; ++k) {
       g_minimal = shard == 0 && k < 10;
       imc_matrix_case(rng, base + ".gmc");
       if (k % 3 == 0) imc_index_case(rng, base + ".idx");
       if (k % 5 == 0) imc_ds_case(rng, base + ".imc");
+      if (k % 7 == 0) imc_twice_case(rng, base);
     }
   } else {
     std::cerr << "unknown family " << fam << "\n";
